@@ -119,19 +119,19 @@ Proof.
       assert (Ht : existsb (String.eqb (migration_filename (next_version plans) (Some m) (cf_migration_format (pj_config P)) (cf_pattern (pj_config P)))) (file_names P) = true).
       { apply existsb_exists. eexists. split; [exact Hin|apply String.eqb_refl]. }
       rewrite Ht in Hm. discriminate Hm. }
-  destruct (is_nil acts); [intros H [[x [y Hc]]|Hc]; inversion H; subst o; discriminate Hc|].
+  destruct (is_nil acts); [intros H Hd; inversion H; subst; destruct Hd as [[x [y Hc]]|Hc]; discriminate Hc|].
   destruct (existsb (fun q => N.leb (next_version plans) (p_version q)) plans) eqn:Hv;
-    [intros H [[x [y Hc]]|Hc]; inversion H; subst o; discriminate Hc|].
-  destruct (refuses acts); [intros H [[x [y Hc]]|Hc]; inversion H; subst o; discriminate Hc|].
+    [intros H Hd; inversion H; subst; destruct Hd as [[x [y Hc]]|Hc]; discriminate Hc|].
+  destruct (refuses acts); [intros H Hd; inversion H; subst; destruct Hd as [[x [y Hc]]|Hc]; discriminate Hc|].
   set (fv := parse_fill_with_args f). set (a0 := map (apply_fill fv) acts).
   destruct (collect_fills a0 baseline) as [|mi mr].
   - destruct (find_missing_enum_fill_with (mkPlan "" None None 0 a0) baseline) as [|ei er].
-    + intros H _. exact (Hleaf _ H Hv).
-    + destruct (re_tty env); [|intros H [[x [y Hc]]|Hc]; inversion H; subst o; discriminate Hc].
-      intros H _. exact (Hleaf _ H Hv).
-  - destruct (re_tty env); [|intros H [[x [y Hc]]|Hc]; inversion H; subst o; discriminate Hc].
+    + intros H _. exact (Hleaf _ H eq_refl).
+    + destruct (re_tty env); [|intros H Hd; inversion H; subst; destruct Hd as [[x [y Hc]]|Hc]; discriminate Hc].
+      intros H _. exact (Hleaf _ H eq_refl).
+  - destruct (re_tty env); [|intros H Hd; inversion H; subst; destruct Hd as [[x [y Hc]]|Hc]; discriminate Hc].
     set (a1 := map (apply_fill (fv ++ mi :: mr)) a0).
-    destruct (find_missing_enum_fill_with (mkPlan "" None None 0 a1) baseline) as [|ei er]; intros H _; exact (Hleaf _ H Hv).
+    destruct (find_missing_enum_fill_with (mkPlan "" None None 0 a1) baseline) as [|ei er]; intros H _; exact (Hleaf _ H eq_refl).
 Qed.
 
 Lemma revision_wrote : forall P m f env file p,
